@@ -564,11 +564,11 @@ Section Refine.
                     match r with None => OValueError | Some [b] => OBackend b | Some _ => OResolutionError end = select (A mods) [] BNone tys).
     { pose proof (get_by_tensors_spec mods s tys I Ht) as H. destruct (get_by_tensors mods false s tys) as [s1 r]. exact H. }
     destruct a as [|n|b|].
-    - destruct (stack s) as [|top rest] eqn:Es; [|split; [exact I|split; [exact Es|reflexivity]]].
+    - destruct (stack s) as [|top rest] eqn:Es; [|split; [exact I|split; [first [exact Es|reflexivity]|reflexivity]]].
       destruct (get_by_tensors mods false s tys) as [s1 r]. destruct Htens as [I1 [S1 E1]]. split; [exact I1|split; [congruence|exact E1]].
     - specialize (Hname n). destruct (get_by_name mods false s n) as [[l1 s1] ob]. exact Hname.
     - split; [exact I|split; reflexivity].
-    - destruct (stack s) as [|top rest] eqn:Es; (split; [exact I|split; [exact Es|reflexivity]]).
+    - split; [exact I|split; reflexivity].
   Qed.
 
   (* ---- importing a module does not disturb what is memoised ---- *)
